@@ -47,6 +47,7 @@ ROWS = [
  ("C11", "to_etree/Integer/not [+-]digits", "fixed", "a bool stored in an Integer element", "Integer element holding a bool written as 'True'/'False'"),
  ("C18", "history/run-fails/write/FileNotFoundError", "fixed", "FI profile could not be cached when ORG or FID", "ofxget stmt for the bundled FI 'commencement' (ORG 'Cavion/Phoenix') - or any ORG/FID containing '/' - died with FileNotFoundError: the profile cache file name embedded ORG/FID verbatim (also C15: seq/valid-answer-rejected with a hostile ORG)"),
  ("C15", "wrong-server/different-org-fid", "fixed", "FI profile cache shared by different ORG/FID pairs", "ORG 'a-b'/FID 'c' and ORG 'a'/FID 'b-c' (same URL) shared one cache file: one FI's DTPROFUP and profile were used for the other"),
+ ("C19", "all/inactive-account-requested", "fixed", "--all requested configured accounts", "stmt/stmtend --all with accounts of some type in ofxget.cfg and no ACTIVE account of that type in the ACCTINFO response requested the configured ones - incl. accounts the server had just reported as not ACTIVE (also all/account-extra-or-duplicated)"),
  ("C06", "caller-string-entity-decoded", "known", None, "a user id / password / account id / ORG / FID... that the CALLER passes and that contains an OFX entity sequence (e.g. password 'a&lt;b' or account 'x&amp;y') is entity-decoded by String.convert() when the request model is built, so the request carries 'a<b' / 'x&y' instead of what was supplied. Not repaired: the decode-on-assignment is by design shared between parsed text and Python values; a repair needs ~20 call sites in Client.py or an API change"),
  ("C15", "wrong-server/same-org-fid-different-url", "fixed", "FI profile cached from one server", "cache keyed by ORG-FID only: client of another URL sent A's DTPROFUP and used A's profile"),
 ]
